@@ -191,16 +191,98 @@ def el_stack(arrays, axis=0, **kw):
     return EArr(shp, at, arrs[0]._dt)
 
 
+def _mentions(term, var):
+    seen, todo = set(), [term]
+    while todo:
+        x = todo.pop()
+        if x.get_id() in seen:
+            continue
+        seen.add(x.get_id())
+        if x.eq(var):
+            return True
+        todo.extend(x.children())
+    return False
+
+
+def repeat_map(counts):
+    """position map of numpy.repeat(., counts) for a 1-d integer count array: ghost functions
+         CUM(0) = 0, CUM(f+1) = CUM(f) + counts[f]   (prefix sums),   T = CUM(n)
+         fam: [0,T) -> [0,n)  with  CUM(fam(t)) <= t < CUM(fam(t)+1)
+    One map per distinct counts term on a path (two repeats with the same counts share it, by congruence).
+    Call-site obligation: every count is >= 0 (numpy raises otherwise)."""
+    e = cur()
+    counts = as_earr(counts)
+    if counts.ndim != 1:
+        raise Unsupported("repeat counts of rank %d" % counts.ndim)
+    K = z3.Int("q_rk")
+    key, nkey = z3.simplify(counts._at(K)), z3.simplify(_t(counts._shape[0]))
+    for k0, n0, rec in e.memo.setdefault("repeat_maps", []):
+        if k0.eq(key) and n0.eq(nkey):
+            return rec
+    used("numpy.repeat(a, counts): out[t] = a[fam(t)], fam the run index of prefix sums of counts (ghost CUM / fam)")
+    n = nkey
+    cat = counts._at
+    f, t = z3.Ints("q_f q_t")
+    e.prove("callsite:repeat:%d:counts-nonnegative" % len(e.memo["repeat_maps"]),
+            z3.ForAll([f], z3.Implies(z3.And(0 <= f, f < n), cat(f) >= 0)), kind="call-pre")
+    CUM = z3.Function(e.fresh_name("cum"), z3.IntSort(), z3.IntSort())
+    FAM = z3.Function(e.fresh_name("fam"), z3.IntSort(), z3.IntSort())
+    T = CUM(n)
+    e.assume(CUM(0) == 0)
+    e.assume(z3.ForAll([f], z3.Implies(z3.And(0 <= f, f < n), CUM(f + 1) == CUM(f) + cat(f)), patterns=[CUM(f + 1)]))
+    e.assume(z3.ForAll([f], z3.Implies(z3.And(0 <= f, f < n), CUM(f + 1) == CUM(f) + cat(f)), patterns=[z3.MultiPattern(CUM(f), cat(f))]))
+    e.assume(z3.ForAll([f], z3.Implies(z3.And(0 <= f, f <= n), z3.And(0 <= CUM(f), CUM(f) <= T)), patterns=[CUM(f)]))   # monotone (by induction; counts >= 0)
+    e.assume(z3.ForAll([t], z3.Implies(z3.And(0 <= t, t < T),
+                                       z3.And(0 <= FAM(t), FAM(t) < n, CUM(FAM(t)) <= t, t < CUM(FAM(t) + 1))), patterns=[FAM(t)]))
+    e.assume(T >= 0)
+    if not _mentions(key, K):
+        # constant counts r: closed form CUM(f) == f*r, an induction lemma (base and step proved here, then assumed)
+        r = key
+        x = z3.Int(e.fresh_name("ind_f"))
+        cx, cx1 = z3.Int(e.fresh_name("cum_f")), z3.Int(e.fresh_name("cum_f1"))
+        ok = e.prove("lemma:repeat:constant-counts:induction-step (CUM(f)=f*r and CUM(f+1)=CUM(f)+r => CUM(f+1)=(f+1)*r)",
+                     z3.Implies(z3.And(cx == x * r, cx1 == cx + r), cx1 == (x + 1) * r), kind="lemma")
+        if ok:
+            e.assume(z3.ForAll([f], z3.Implies(z3.And(0 <= f, f <= n), CUM(f) == f * r), patterns=[CUM(f)]))
+            e.assume(T == n * r)
+    rec = dict(CUM=CUM, FAM=FAM, T=wrap(T), n=n, counts=counts)
+    e.memo["repeat_maps"].append((key, nkey, rec))
+    return rec
+
+
 def el_repeat(a, repeats, axis=None):
+    if isinstance(repeats, list):
+        raise Unsupported("repeat with a python list of counts")
+    if isinstance(repeats, numpy.ndarray) and not isinstance(repeats, EArr):
+        repeats = as_earr(repeats)
+    if isinstance(repeats, EArr) and repeats.ndim == 1:
+        if axis not in (None, 0):
+            raise Unsupported("repeat(array counts) along axis %r" % (axis,))
+        a = as_earr(a)
+        if a.ndim != 1:
+            raise Unsupported("repeat(array counts) of a rank-%d array" % a.ndim)
+        e = cur()
+        same = dims_equal(a._shape[0], repeats._shape[0])
+        if not (same is True or (same is not False and same)):
+            one = dims_equal(repeats._shape[0], 1)
+            if one is True or (one is not False and one):
+                raise Unsupported("repeat with a length-1 count array (broadcast)")
+            raise ValueError("operands could not be broadcast together with shape")
+        rec = repeat_map(repeats)
+        base, FAM = a._at, rec["FAM"]
+        return EArr((rec["T"],), lambda i: base(FAM(i)), a._dt)
+    if isinstance(repeats, EArr):
+        repeats = repeats.item()
     used("numpy.repeat(scalar count): result[k] = a[k div r]")
     a = as_earr(a)
-    if isinstance(repeats, (numpy.ndarray, list)):
-        raise Unsupported("repeat with per-element counts in element mode (use contract)")
+    r = _t(repeats)
+    if a.ndim == 0:                      # repeat(scalar, r): r copies
+        v = a._at()
+        return EArr((wrap(z3.simplify(z3.If(r > 0, r, 0))),), lambda i: v, a._dt)
     if axis is None:
         if a.ndim != 1:
             raise Unsupported("repeat axis=None on ndim>1")
         axis = 0
-    r = _t(repeats)
     base = a._at
     shp = list(a._shape)
     shp[axis] = wrap(z3.simplify(_t(shp[axis]) * r))
@@ -210,6 +292,16 @@ def el_repeat(a, repeats, axis=None):
         b[axis] = i[axis] / r
         return base(*b)
     return EArr(tuple(shp), at, a._dt)
+
+
+def el_array(obj, dtype=None, **kw):
+    """numpy.array(<symbolic list>) -> array with the list's items"""
+    if hasattr(obj, "vlen") and not isinstance(obj, EArr):
+        at = obj._at
+        return EArr((obj.vlen(),), lambda i: at(i), numpy.dtype(dtype) if dtype is not None else numpy.int64)
+    if isinstance(obj, EArr):
+        return obj.copy()
+    raise Unsupported("numpy.array of %r" % type(obj))
 
 
 def el_copy(a, **kw):
@@ -230,8 +322,118 @@ def el_where(cond, x=None, y=None):
 _SUMF = {}
 
 
+def _memo_by_term(e, table, a):
+    K = z3.Int("q_mk")
+    key, nkey = z3.simplify(a._at(K)), z3.simplify(_t(a._shape[0]))
+    for k0, n0, rec in e.memo.setdefault(table, []):
+        if k0.eq(key) and n0.eq(nkey):
+            return key, nkey, rec
+    return key, nkey, None
+
+
+def _num(a, t):
+    return z3.ToReal(t) if (a._es == z3.RealSort() and t.sort() == z3.IntSort()) else t
+
+
 def el_sum(a, axis=None, dtype=None, **kw):
-    raise Unsupported("sum over symbolic array in element mode (use a contract / ghost sum)")
+    """sum of a 1-d array: ghost prefix sums PS(0) = 0, PS(i+1) = PS(i) + a[i]; the result is PS(n)"""
+    a = as_earr(a)
+    if a.ndim != 1 or axis not in (None, 0, -1):
+        raise Unsupported("sum over symbolic array of rank %d / axis %r in element mode" % (a.ndim, axis))
+    e = cur()
+    key, n, rec = _memo_by_term(e, "sums", a)
+    if rec is None:
+        used("numpy.sum (1-d): ghost prefix sums PS(0)=0, PS(i+1)=PS(i)+a[i]; sum = PS(n)")
+        PS = z3.Function(e.fresh_name("psum"), z3.IntSort(), a._es)
+        i = z3.Int("q_i")
+        at = a._at
+        zero = z3.RealVal(0) if a._es == z3.RealSort() else z3.IntVal(0)
+        e.assume(PS(0) == zero)
+        e.assume(z3.ForAll([i], z3.Implies(z3.And(0 <= i, i < n), PS(i + 1) == PS(i) + at(i)), patterns=[PS(i + 1)]))
+        rec = dict(PS=PS, n=n, arr=a)
+        e.memo["sums"].append((key, n, rec))
+    return wrap(rec["PS"](n))
+
+
+def el_argsort(a, axis=-1):
+    """argsort of a 1-d array: a permutation `asc` of [0,n) (ghost inverse) with a[asc[m]] non-decreasing in m"""
+    a = as_earr(a)
+    if a.ndim != 1 or axis not in (-1, 0):
+        raise Unsupported("argsort of rank %d" % a.ndim)
+    e = cur()
+    key, n, rec = _memo_by_term(e, "argsorts", a)
+    if rec is None:
+        used("numpy.argsort (1-d): a permutation of the indices that sorts the values in non-decreasing order")
+        asc = EArr.fresh("asc", (wrap(n),), numpy.int64)
+        INV = z3.Function(e.fresh_name("ascinv"), z3.IntSort(), z3.IntSort())
+        m, m2 = z3.Ints("q_m q_m2")
+        at, f = a._at, asc._fn
+        e.assume(z3.ForAll([m], z3.Implies(z3.And(0 <= m, m < n), z3.And(0 <= f(m), f(m) < n, INV(f(m)) == m)), patterns=[f(m)]))
+        e.assume(z3.ForAll([m], z3.Implies(z3.And(0 <= m, m < n), z3.And(0 <= INV(m), INV(m) < n, f(INV(m)) == m)), patterns=[INV(m)]))
+        e.assume(z3.ForAll([m, m2], z3.Implies(z3.And(0 <= m, m <= m2, m2 < n), at(f(m)) <= at(f(m2))),
+                           patterns=[z3.MultiPattern(f(m), f(m2))]))
+        rec = dict(asc=asc, INV=INV, n=n, arr=a)
+        e.memo["argsorts"].append((key, n, rec))
+    return rec["asc"]
+
+
+def el_cumsum(a, axis=None):
+    a = as_earr(a)
+    if a.ndim != 1:
+        raise Unsupported("cumsum of rank %d" % a.ndim)
+    e = cur()
+    used("numpy.cumsum (1-d): c[0] = a[0], c[i] = c[i-1] + a[i]")
+    c = EArr.fresh("cumsum", a._shape, a._dt)
+    i = z3.Int("q_i")
+    n, at, f = _t(a._shape[0]), a._at, c._fn
+    e.assume(z3.Implies(n > 0, f(0) == at(0)))
+    e.assume(z3.ForAll([i], z3.Implies(z3.And(1 <= i, i < n), f(i) == f(i - 1) + at(i)), patterns=[f(i)]))
+    return c
+
+
+def el_reshape(a, shape):
+    a = as_earr(a)
+    shape = tuple(shape)
+    if a.ndim == 1 and len(shape) == 1:
+        same = dims_equal(a._shape[0], shape[0])
+        if same is True or (same is not False and same):
+            return a
+        raise ValueError("cannot reshape array of size into shape")
+    raise Unsupported("reshape %r -> %r in element mode" % (a._shape, shape))
+
+
+def el_count_nonzero(mask, axis=None, **kw):
+    """count of true entries of a 1-d boolean array: ghost counting function; when the mask is `x > 0` for an array x that
+    was argsorted on this path, the sorted-order law is added: x[asc[m]] > 0  <=>  m >= n - count"""
+    mask = as_earr(mask)
+    if mask.ndim != 1 or axis is not None:
+        raise Unsupported("count_nonzero of rank %d" % mask.ndim)
+    e = cur()
+    used("numpy.count_nonzero (1-d bool): 0 <= count <= n; for a mask x > 0 of an argsorted x the positives are the last `count` entries of the sorted order")
+    n = _t(mask._shape[0])
+    cnt = z3.Int(e.fresh_name("count"))
+    e.assume(z3.And(0 <= cnt, cnt <= n))
+    K = z3.Int("q_mk")
+    mk = z3.simplify(mask._at(K))
+    m = z3.Int("q_m")
+    for k0, n0, rec in e.memo.get("argsorts", []):
+        x = rec["arr"]
+        zero = z3.RealVal(0) if x._es == z3.RealSort() else z3.IntVal(0)
+        if z3.simplify(x._at(K) > zero).eq(mk) and z3.simplify(n0).eq(z3.simplify(n)):
+            f, at = rec["asc"]._fn, x._at
+            e.assume(z3.ForAll([m], z3.Implies(z3.And(0 <= m, m < n), (at(f(m)) > zero) == (m >= n - cnt)), patterns=[f(m)]))
+            i = z3.Int("q_i")
+            e.assume(z3.Implies(cnt == 0, z3.ForAll([i], z3.Implies(z3.And(0 <= i, i < n), z3.Not(at(i) > zero)), patterns=[at(i)])))
+    return wrap(cnt)
+
+
+def el_prod(a, axis=None, **kw):
+    if isinstance(a, (tuple, list)):
+        r = 1
+        for x in a:
+            r = r * x
+        return r
+    raise Unsupported("numpy.prod of %r" % type(a))
 
 
 def el_all(a, axis=None):
@@ -276,6 +478,7 @@ EL_FUNCS = {
     "diff": el_diff,
     "unique": el_unique,
     "flatnonzero": el_flatnonzero, "stack": el_stack, "repeat": el_repeat, "copy": el_copy,
+    "argsort": el_argsort, "cumsum": el_cumsum, "count_nonzero": el_count_nonzero, "reshape": lambda a, shape, **k: el_reshape(a, shape if isinstance(shape, (tuple, list)) else (shape,)),
     "where": el_where, "sum": el_sum, "all": el_all, "any": el_any,
     "empty_like": lambda a, dtype=None, **k: el_empty(a.shape, dtype or a.dtype),
     "zeros_like": lambda a, dtype=None, **k: el_zeros(a.shape, dtype or a.dtype),
@@ -291,7 +494,7 @@ def el_int_(x=0, *a, **k):
     raise Unsupported("numpy.int_ of %r" % type(x))
 
 
-CREATION = {"int_": el_int_, "empty": el_empty, "zeros": el_zeros, "ones": el_ones, "full": el_full, "arange": el_arange}
+CREATION = {"prod": el_prod, "repeat": el_repeat, "array": el_array, "int_": el_int_, "empty": el_empty, "zeros": el_zeros, "ones": el_ones, "full": el_full, "arange": el_arange}
 
 
 class patched_numpy:
@@ -306,6 +509,8 @@ class patched_numpy:
             def mk(orig, impl, name):
                 def f(*a, **k):
                     if sym.active() and _has_sym(a, k):
+                        if name in ("array", "repeat", "prod") and not _wants_model(name, a, k):
+                            return orig(*a, **k)
                         return impl(*a, **k)
                     return orig(*a, **k)
                 f.__name__ = name
@@ -316,6 +521,18 @@ class patched_numpy:
     def __exit__(self, *exc):
         for name, orig in self.saved.items():
             setattr(numpy, name, orig)
+
+
+def _wants_model(name, a, k):
+    """numpy.array / numpy.repeat are patched only for the argument forms the model adds (a symbolic python list;
+    scalar symbolic operands); arrays dispatch through EArr.__array_function__ as before"""
+    if name == "array":
+        return bool(a) and hasattr(a[0], "vlen") and hasattr(a[0], "append")
+    if name == "repeat":
+        return not any(isinstance(x, EArr) for x in a[:1])
+    if name == "prod":
+        return bool(a) and isinstance(a[0], (tuple, list))
+    return True
 
 
 def _has_sym(a, k):
